@@ -336,22 +336,30 @@ Definition nfrags (r : record) : N := match r with RHs _ fs _ => N.of_nat (lengt
 Lemma max_size_pos : 0 < max_size. Proof. reflexivity. Qed.
 Lemma max_count_pos : 0 < max_count. Proof. reflexivity. Qed.
 
+(* Push either leaves the state alone or - for a handshake record that passes both limit checks -
+   runs the fragment loop *)
+Lemma push_fst_cases st r :
+  fst (push st r) = st \/
+  exists ep fs tail, r = RHs ep fs tail /\
+    (max_size <=? size st + record_size r) || (max_count <=? count st) = false /\
+    fst (push st r) = fst (push_frags ep st fs).
+Proof.
+  unfold push. destruct (max_size <=? record_size r); [now left|].
+  destruct r as [n|n|ep fs tail]; [now left|now left|].
+  destruct (_ || _) eqn:G; [now left|]. right. exists ep, fs, tail. split; [reflexivity|]. split; [reflexivity|].
+  destruct (push_frags ep st fs) as [st' retr]. destruct (tail =? 0); reflexivity.
+Qed.
+
 Lemma push_WF st r : WF st -> WF (fst (push st r)).
 Proof.
-  intro H. unfold push. destruct (_ || _); [exact H|].
-  destruct r as [n|n|ep fs tail]; try exact H.
-  destruct (push_frags ep st fs) as [st' retr] eqn:E.
-  assert (H' : WF st') by (pose proof (push_frags_WF ep st fs H) as H'; now rewrite E in H').
-  destruct (tail =? 0); exact H'.
+  intro H. destruct (push_fst_cases st r) as [->|(ep & fs & tail & _ & _ & ->)]; [exact H|].
+  now apply push_frags_WF.
 Qed.
 
 Lemma push_cur st r : cur (fst (push st r)) = cur st.
 Proof.
-  unfold push. destruct (_ || _); [reflexivity|].
-  destruct r as [n|n|ep fs tail]; try reflexivity.
-  destruct (push_frags ep st fs) as [st' retr] eqn:E.
-  assert (cur st' = cur st) by (pose proof (push_frags_cur ep fs st false) as H'; unfold push_frags in E; now rewrite E in H').
-  destruct (tail =? 0); assumption.
+  destruct (push_fst_cases st r) as [->|(ep & fs & tail & _ & _ & ->)]; [reflexivity|].
+  apply (push_frags_cur ep fs st false).
 Qed.
 
 (* what the guard at the top of Push guarantees afterwards *)
@@ -361,16 +369,10 @@ Lemma push_bounds st r :
   (count st' <= count st \/ count st' + 1 <= max_count + nfrags r) /\
   size st <= size st' /\ count st <= count st'.
 Proof.
-  cbv zeta. unfold push.
-  destruct ((max_size <=? size st + record_size r) || (max_count <=? count st)) eqn:G; [cbn; lia|].
+  cbv zeta. destruct (push_fst_cases st r) as [->|(ep & fs & tail & -> & G & ->)]; [lia|].
   apply orb_false_elim in G. destruct G as [G1 G2]. apply N.leb_gt in G1, G2.
-  destruct r as [n|n|ep fs tail]; cbn [fst nfrags]; try lia.
-  destruct (push_frags ep st fs) as [st' retr] eqn:E.
-  pose proof (push_frags_growth ep fs st false) as Hg. unfold push_frags in E. rewrite E in Hg.
-  cbv zeta in Hg. cbn [fst] in Hg.
-  pose proof (sum_flen_le_frags_size fs). cbn [record_size] in G1.
-  assert (size st' < max_size /\ count st' + 1 <= max_count + N.of_nat (length fs)) by lia.
-  destruct (tail =? 0); cbn [fst]; lia.
+  pose proof (push_frags_growth ep fs st false) as Hg. cbv zeta in Hg. fold (push_frags ep st fs) in Hg.
+  pose proof (sum_flen_le_frags_size fs). cbn [record_size nfrags] in *. lia.
 Qed.
 
 Lemma pop_WF st m st' : WF st -> pop st = POk m st' ->
@@ -562,11 +564,8 @@ Qed.
 
 Lemma push_NP st r : NP st -> NP (fst (push st r)).
 Proof.
-  intro H. unfold push. destruct (_ || _); [exact H|].
-  destruct r as [x|x|ep fs tail]; try exact H.
-  pose proof (push_frags_fold NP ep (fun st b f => push_frag_NP ep st b f) fs st false H) as H'.
-  unfold push_frags. destruct (fold_left (push_frag ep) fs (st, false)) as [st' retr].
-  destruct (tail =? 0); exact H'.
+  intro H. destruct (push_fst_cases st r) as [->|(ep & fs & tail & _ & _ & ->)]; [exact H|].
+  apply (push_frags_fold NP ep (fun st b f => push_frag_NP ep st b f) fs st false H).
 Qed.
 
 Lemma pop_NP st m st' : WF st -> NP st -> pop st = POk m st' -> NP st'.
@@ -667,6 +666,8 @@ Theorem retransmit_flag st ep fs :
   snd (push st (RHs ep fs 0)) = (true, existsb (fun f => f_seq f <? cur st) fs, false).
 Proof.
   intro G. unfold push. rewrite G.
+  replace (max_size <=? record_size (RHs ep fs 0)) with false
+    by (symmetry; apply orb_false_elim in G; destruct G as [G _]; apply N.leb_gt in G; apply N.leb_gt; lia).
   pose proof (push_frags_snd ep fs st false) as H. unfold push_frags.
   destruct (fold_left (push_frag ep) fs (st, false)) as [st' retr]. cbn [snd N.eqb] in *. now rewrite H.
 Qed.
@@ -777,10 +778,8 @@ Section Safety.
 
   Lemma push_SInv st r : honest_rec n M r -> SInv st -> SInv (fst (push st r)).
   Proof.
-    intros Hr HS. unfold push. destruct (_ || _); [exact HS|].
-    destruct r as [x|x|ep fs tail]; try exact HS. cbn [honest_rec] in Hr.
-    pose proof (push_frags_SInv ep fs Hr st false HS) as H. unfold push_frags.
-    destruct (fold_left (push_frag ep) fs (st, false)) as [st' retr]. destruct (tail =? 0); exact H.
+    intros Hr HS. destruct (push_fst_cases st r) as [->|(ep & fs & tail & -> & _ & ->)]; [exact HS|].
+    cbn [honest_rec] in Hr. apply (push_frags_SInv ep fs Hr st false HS).
   Qed.
 
   Lemma pop_safe st : SInv st ->
@@ -1234,6 +1233,7 @@ Section Complete.
     destruct r as [x|x|ep fs tail]; cbn [part_rec] in Hr; try contradiction. destruct Hr as [-> Hfs].
     destruct (LInv_capacity _ _ HL) as [Hsz Hct].
     unfold arrive, push.
+    replace (max_size <=? record_size (RHs ep fs 0)) with false by (symmetry; apply N.leb_gt; lia).
     replace ((max_size <=? size st + record_size (RHs ep fs 0)) || (max_count <=? count st)) with false
       by (symmetry; apply orb_false_intro; apply N.leb_gt; lia).
     pose proof (push_frags_LInv ep fs Hfs Arr st false HL) as H1. unfold push_frags.
@@ -1323,10 +1323,8 @@ Lemma push_W_from_frag (W : state -> Prop) :
   (forall ep st b f, W st -> W (fst (push_frag ep (st, b) f))) ->
   forall st r, W st -> W (fst (push st r)).
 Proof.
-  intros Hf st r HW. unfold push. destruct (_ || _); [exact HW|].
-  destruct r as [x|x|ep fs tail]; try exact HW.
-  pose proof (push_frags_fold W ep (Hf ep) fs st false HW) as H. unfold push_frags.
-  destruct (fold_left (push_frag ep) fs (st, false)) as [st' retr]. destruct (tail =? 0); exact H.
+  intros Hf st r HW. destruct (push_fst_cases st r) as [->|(ep & fs & tail & _ & _ & ->)]; [exact HW|].
+  apply (push_frags_fold W ep (Hf ep) fs st false HW).
 Qed.
 
 (* (a) OVERSHOOT.  Once the stored fragment lengths of the current message sum to more than its
@@ -1427,16 +1425,21 @@ Proof. vm_compute. reflexivity. Qed.
    into more than max_count fragments can never be reassembled. *)
 Definition Full (st : state) : Prop := max_count <= count st /\ pop st = PNone.
 
-Lemma full_push st r : Full st -> push st r = (st, (false, false, true)).
+(* a full buffer refuses every handshake record; other records are still classified (826a95e) *)
+Lemma full_push st r : Full st ->
+  fst (push st r) = st /\ (let '(ish, _, err) := snd (push st r) in err || negb ish = true).
 Proof.
-  intros [H _]. unfold push. replace (max_count <=? count st) with true by (symmetry; apply N.leb_le; exact H).
-  now rewrite orb_true_r.
+  intros [H _]. unfold push. destruct (max_size <=? record_size r); [now split|].
+  destruct r as [x|x|ep fs tail]; [now split|now split|].
+  replace (max_count <=? count st) with true by (symmetry; apply N.leb_le; exact H).
+  rewrite orb_true_r. now split.
 Qed.
 
 Theorem full_rejects_forever st rs : Full st -> run st rs = (st, [], false).
 Proof.
   intro HF. induction rs as [|r rs IH]; [reflexivity|]. cbn [run]. unfold arrive.
-  rewrite (full_push st r HF). cbn [orb]. rewrite IH. reflexivity.
+  destruct (full_push st r HF) as [H1 H2]. destruct (push st r) as [st1 [[ish retr] err]].
+  cbn [fst snd] in H1, H2. subst st1. rewrite H2, IH. reflexivity.
 Qed.
 
 Definition cap_msg : hmsg := mkMsg 11 0 (repeat 7 1001).
